@@ -265,7 +265,7 @@ static void v_set(void *c, int a, int b, res_t *r) { qvector_t *v = c; rb(r, b =
 static void v_pop(void *c, int a, int b, res_t *r) { qvector_t *v = c; void *d = b == 0 ? v->popat(v, a) : b == 1 ? v->popfirst(v) : v->poplast(v); rp(r, d, d ? 4 : 0, 1); }
 static void v_rem(void *c, int a, int b, res_t *r) { qvector_t *v = c; rb(r, b == 0 ? v->removeat(v, a) : b == 1 ? v->removefirst(v) : v->removelast(v)); }
 static void v_walkop(void *c, int a, int b, res_t *r) { if (a == 9) { rb(r, ((qvector_t *)c)->getnext(c, NULL, b)); r->failed = 0; return; } v_walk(c, b, r); }
-static void v_misc(void *c, int a, int b, res_t *r) { qvector_t *v = c; size_t sz = 0; switch (a) { case 0: rn(r, v->size(v), 0); break; case 1: rb(r, v->resize(v, b)); break; case 2: { errno = 0; void *d = v->toarray(v, &sz); int e = errno; rp(r, d, d ? sz * 4 : 0, 1); if (!d && e == ENOENT) r->failed = 0; break; }
+static void v_misc(void *c, int a, int b, res_t *r) { qvector_t *v = c; size_t sz = 0; switch (a) { case 0: rn(r, v->size(v), 0); break; case 1: rb(r, v->resize(v, b < 0 ? (b == -1 ? SIZE_MAX : SIZE_MAX / v->objsize + 1) : (size_t)b)); break;   /* b < 0: a capacity whose byte size cannot be allocated / does not fit into size_t */ case 2: { errno = 0; void *d = v->toarray(v, &sz); int e = errno; rp(r, d, d ? sz * 4 : 0, 1); if (!d && e == ENOENT) r->failed = 0; break; }
     case 3: { errno = 0; v->reverse(v); rb(r, errno != ENOMEM); break; } case 4: v->clear(v); rb(r, 1); break; case 5: rb(r, v->debug(v, NULL)); r->failed = 0; break; case 6: rb(r, v->debug(v, devnull)); break; case 7: v->lock(v); v->unlock(v); rb(r, 1); break; } }
 static void v_suffix(void *c, char *out) { qvector_t *v = c; res_t r; char *p = out; int x = 0x4e4e4e4e; p += sprintf(p, "%d%d", v->addlast(v, &x), v->addat(v, 1, &x)); char *s = v->popfirst(v); p += sprintf(p, "%.4s,", s ? s : "-"); free(s); v->reverse(v); v_walk(v, 1, &r); p += sprintf(p, "[%s]", r.s); v_digest(v, p); }
 static fop_t V_OPS[120]; static int V_NOPS;
@@ -276,7 +276,7 @@ static void v_build(void) {
     ADD(V_OPS, "getfirst(newmem)", "qvector_getfirst", v_get, 0, 2); ADD(V_OPS, "getlast(newmem)", "qvector_getlast", v_get, 0, 3); ADD(V_OPS, "setfirst", "qvector_setfirst", v_set, 0, 1); ADD(V_OPS, "setlast", "qvector_setlast", v_set, 0, 2);
     ADD(V_OPS, "popfirst", "qvector_popfirst", v_pop, 0, 1); ADD(V_OPS, "poplast", "qvector_poplast", v_pop, 0, 2); ADD(V_OPS, "removefirst", "qvector_removefirst", v_rem, 0, 1); ADD(V_OPS, "removelast", "qvector_removelast", v_rem, 0, 2);
     ADD(V_OPS, "getnext walk", "qvector_getnext", v_walkop, 0, 0); ADD(V_OPS, "getnext walk(newmem)", "qvector_getnext", v_walkop, 0, 1); ADD(V_OPS, "getnext(NULL cursor)", "qvector_getnext", v_walkop, 9, 0);
-    ADD(V_OPS, "size", "qvector_size", v_misc, 0, 0); for (int m = 0; m <= 5; m++) ADD(V_OPS, "resize", "qvector_resize", v_misc, 1, m);
+    ADD(V_OPS, "size", "qvector_size", v_misc, 0, 0); for (int m = -2; m <= 5; m++) ADD(V_OPS, m < 0 ? "resize(huge)" : "resize", "qvector_resize", v_misc, 1, m);
     ADD(V_OPS, "toarray", "qvector_toarray", v_misc, 2, 0); ADD(V_OPS, "reverse", "qvector_reverse", v_misc, 3, 0); ADD(V_OPS, "clear", "qvector_clear", v_misc, 4, 0); ADD(V_OPS, "debug(NULL)", "qvector_debug", v_misc, 5, 0); ADD(V_OPS, "debug", "qvector_debug", v_misc, 6, 0); ADD(V_OPS, "lock+unlock", "qvector_lock qvector_unlock", v_misc, 7, 0);
     V_NOPS = n;
 }
